@@ -18,7 +18,7 @@ def register(prop, run, KERNELS, C01_COVERS):
 
     prop("C06",
          quick=[run("C06_step", covers=["done", "delivered", "empty-range", "stopped-early"], nmax=2, cache=1, cmps=1, evictin=1),
-                run("C06_step", covers=["done", "delivered", "stopped-early"], nmin=2, nmax=2, cache=0, store=0, cmps=3)],
+                run("C06_step", covers=["done", "delivered", "stopped-early"], nmin=2, nmax=2, cache=0, store=0, cmps=3, viasnap=1)],
          thorough=[run("C06_step", covers=["done", "delivered", "empty-range", "stopped-early"], nmax=2, cache=1, cmps=3, klen=2, budget=3000),
                    run("C06_step", covers=["done", "delivered", "stopped-early"], nmin=3, nmax=3, cache=2, cmps=1, evictin=1, budget=3000),
                    run("C06_step", covers=["done", "delivered", "stopped-early"], nmin=4, nmax=4, cache=0, store=0, cmps=2, budget=3000)],
@@ -88,7 +88,7 @@ def register(prop, run, KERNELS, C01_COVERS):
         return sum(1 << b for b in bits)
 
     prop("C02",
-         quick=[run("C02_step", covers=["done"], nmax=2, cache=1),
+         quick=[run("C02_step", covers=["done"], nmax=2, cache=1, preop=1),
                 run("C02_step", covers=["done", "trailing-unflushed", "second-generation"], nmax=1, cache=1, ncolls=2, trailing=1, preop=0, secondgen=1, budget=900)],
          thorough=[run("C02_step", covers=["done"], nmax=3, cache=1, klen=2, vlen=2, budget=3000),
                    run("C02_step", covers=["done", "trailing-unflushed", "second-generation"], nmax=2, cache=1, ncolls=2, trailing=1, preop=1, secondgen=1, budget=3000),
@@ -132,7 +132,8 @@ def register(prop, run, KERNELS, C01_COVERS):
 
     prop("C12",
          quick=[run("C12_hist", covers=["done", "final-reopen"], store=1, k=3, opmask=mask(0, 1, 2, 7, 8, 9, 13), final_reopen=1),
-                run("C12_hist", covers=["done"], store=0, k=4, opmask=mask(0, 7, 8, 9), final_reopen=0)],
+                run("C12_hist", covers=["done"], store=0, k=4, opmask=mask(0, 7, 8, 9), final_reopen=0),
+                run("C12_hist", covers=["done", "final-reopen"], store=1, k=3, opmask=mask(0, 2, 7, 9), final_reopen=1, emptyname=1)],
          thorough=[run("C12_hist", covers=["done", "final-reopen"], store=1, k=4, opmask=mask(0, 1, 2, 7, 8, 9, 13), final_reopen=1, budget=3000),
                    run("C12_hist", covers=["done"], store=0, k=5, opmask=mask(0, 7, 8, 9), final_reopen=0, budget=3000)],
          outside=["names other than a, b", "histories longer than K = 3..5 steps"],
@@ -142,7 +143,7 @@ def register(prop, run, KERNELS, C01_COVERS):
     prop("C15",
          quick=[run("C15_hist", covers=["done"], store=1, k=3, snaps=1, readback=1, opmask=mask(0, 1, 2, 3, 4, 6, 7, 13, 14)),
                 run("C15_hist", covers=["done"], store=0, k=3, snaps=1, readback=1, opmask=mask(0, 1, 4, 6, 8, 12, 14)),
-                run("C15_hist", covers=["done"], store=1, k=2, snaps=1, readback=1, init=1, opmask=mask(2, 3, 13, 14, 17)),
+                run("C15_hist", covers=["done"], store=1, k=3, snaps=1, readback=1, init=0, opmask=mask(0, 2, 13, 17)),
                 run("C15_get", store=1)],
          thorough=[run("C15_get", store=1),
                    run("C15_hist", covers=["done"], store=1, k=3, snaps=1, readback=1, init=2, opmask=mask(0, 1, 2, 3, 4, 6, 13, 14, 17), budget=3000),
@@ -163,7 +164,7 @@ def register(prop, run, KERNELS, C01_COVERS):
          note=NOTE, technique=TECH, design_ref="DESIGN.md §4 C07")
 
     prop("C08",
-         quick=[run("C08_revert", covers=["done", "reverted-to-empty", "reverted-to-flush"], store=1, flushes=2, bigval=1, lean=1, unwind_violation=1, step_budget=400000),
+         quick=[run("C08_revert", covers=["done", "reverted-to-empty", "reverted-to-flush"], store=1, flushes=2, bigval=1, lean=1, cmps=2, unwind_violation=1, step_budget=400000),
                 run("C08_revert", covers=["done", "reverted-to-empty", "continued"], store=1, flushes=1, bigval=0, lean=0, unwind_violation=1, step_budget=400000),
                 run("C08_revert", covers=["memonly"], store=0, flushes=0, bigval=0, lean=0, unwind_violation=1)],
          thorough=[run("C08_revert", covers=["done", "reverted-to-empty", "reverted-to-flush", "continued"], store=1, flushes=2, bigval=0, lean=0, unwind_violation=1, step_budget=400000, budget=3000),
@@ -184,7 +185,7 @@ def register(prop, run, KERNELS, C01_COVERS):
          note=NOTE, technique=TECH, design_ref="DESIGN.md §4 C11")
 
     prop("C16",
-         quick=[run("C16_enum", covers=["done", "empty"], nmax=4, store=0, cache=0),
+         quick=[run("C16_enum", covers=["done", "empty"], nmax=4, store=0, cache=0, cmps=2),
                 run("C16_boundary", covers=["done"], nmin=1023, nmax=1026, rand_concrete=1, step_budget=60000000, budget=900,
                     note="engine-executed boundary sizes with concrete keys: not a solver claim over contents")],
          thorough=[run("C16_enum", covers=["done", "empty"], nmax=5, store=0, cache=0, budget=3000),
